@@ -70,8 +70,8 @@ def rust_unescape(body):
 
 
 class Src:
-    def __init__(self):
-        self.src = read(REL)
+    def __init__(self, rel=None):
+        self.src = read(rel or REL)
         self.m = mask(self.src)
         # comment-free text with literals intact: take src where mask kept the char or the char is inside a literal
         # (mask blanks comments AND literal contents; we need comments gone but literals kept)
@@ -408,6 +408,31 @@ def extract():
                   "matchinput.next(){Some(ch)=>{ifescaping&&ch=='\\\\'{letescaped=parse_escape_sequence(input,quote_char);result.push(escaped);}else{result.push(ch);}}",
                   "None=>{letcurrent_cursor=input.save();letspan=input.span_since(current_cursor.cursor());returnErr(Simple::new(None,span));}"]:
         expect(piece in b, "multi_quoted_string(): " + piece[:60])
+    # ---- the inner lexer of s-/f-strings (parser/interpolation.rs; hand-modelled in Model/LexerInterp.v): shape only
+    I = Src("prqlc/prqlc-parser/src/parser/interpolation.rs")
+    expect(I.body("interpolated_parser") ==
+           "letexpr=interpolate_ident_part().separated_by(just('.')).at_least(1).collect().map(Ident::from_path).map(ExprKind::Ident)"
+           ".map_with(|kind,extra|{letsimple_span:SimpleSpan=extra.span();letspan=Span{start:simple_span.start,end:simple_span.end,source_id:0,};"
+           "ExprKind::into_expr(kind,span)}).map(Box::new).labelled(\"interpolated string variable\")"
+           ".then(just(':').ignore_then(none_of('}').repeated().collect::<String>()).or_not(),).delimited_by(just('{'),just('}'))"
+           ".map(|(expr,format)|InterpolateItem::Expr{expr,format});"
+           "letstring=just(\"{{\").to('{').or(just(\"}}\").to('}')).or(none_of(\"{}\")).repeated().at_least(1).collect::<String>().map(InterpolateItem::String);"
+           "expr.or(string).repeated().collect().then_ignore(end())", "interpolation.rs interpolated_parser()")
+    expect(I.body("interpolate_ident_part") ==
+           "letplain=any().filter(|c:&char|c.is_alphabetic()||*c=='_').then(any().filter(|c:&char|c.is_alphanumeric()||*c=='_').repeated(),)"
+           ".to_slice().map(|s:&str|s.to_string()).labelled(\"interpolated string\");"
+           "letbackticks=none_of('`').repeated().to_slice().map(|s:&str|s.to_string()).delimited_by(just('`'),just('`'));"
+           "plain.or(backticks.labelled(\"interp:backticks\"))", "interpolation.rs interpolate_ident_part()")
+    b = I.body("parse")
+    expect(b.startswith("letres=interpolated_parser().parse(string.as_str());let(output,errors)=res.into_output_errors();if!errors.is_empty(){returnErr(errors.into_iter().map(|e|{"
+                        "letspan=Span{start:span_base.start+e.span().start,end:span_base.start+e.span().end,source_id:span_base.source_id,};"), "interpolation.rs parse(): error path")
+    expect("InterpolateItem::Expr{expr,format}=>{letadjusted_expr=Box::new(Expr{span:expr.span.map(|s|Span{start:span_base.start+s.start,end:span_base.start+s.end,source_id:span_base.source_id,}),..(*expr)});"
+           "InterpolateItem::Expr{expr:adjusted_expr,format,}}InterpolateItem::String(s)=>InterpolateItem::String(s),}).collect();Ok(adjusted_output)" in b, "interpolation.rs parse(): span rebasing of Expr items")
+    E = Src("prqlc/prqlc-parser/src/parser/expr.rs")
+    eb = E.body("interpolation")
+    expect("lr::Token{kind:TokenKind::Interpolation('s',string),..}=>(ExprKind::SStringasfn(_)->_,string.clone())," in eb and
+           "lr::Token{kind:TokenKind::Interpolation('f',string),..}=>(ExprKind::FStringasfn(_)->_,string.clone())," in eb and
+           "matchinterpolation::parse(string,span+2){Ok(items)=>finish(items)," in eb, "expr.rs interpolation(): the token's content goes to interpolation::parse with span + 2")
     return info
 
 
